@@ -87,8 +87,10 @@ prop("C11", "other",
      bounded=[B3.c11_order])
 
 prop("C12", "other",
-     "_parse_attribute_name/_title_format/dedupe contracts where in reach; bounded: property names over a class alphabet (every length <= 2 string), sibling pairs, titles; "
-     "each generated module is executed.",
+     "Deductive part is small: only _Property.bind (the JSON name stays recorded as `source`, the attribute name as `name`) is under contract. The name mapping itself "
+     "(_parse_attribute_name, _title_format: unicodedata, str.isidentifier, regular expressions over all of Unicode) and _ParseState.dedupe are outside the "
+     "executor's subset and are decided by enumeration only -- bounded, labelled as such: every code point alone and in three contexts, every string of length <= 2 over "
+     "a class alphabet, sibling pairs, titles, required-only names; each generated module is executed.",
      bounded=[B3.c12_names, B3.c12_siblings, B3.c12_titles, B3.c12_class_names, B3.c12_codepoints])
 
 prop("C17", "other",
